@@ -24,21 +24,36 @@ func historyKinds() []colgen.Kind {
 		b.U64, b.FS3, b.FS16, colgen.Tuple(b.Str, b.U8), colgen.Array(colgen.Array(b.U8)), colgen.Array(colgen.Nullable(b.I32)),
 		b.Bool, b.UUID, b.Pt, b.Noth, colgen.Nullable(b.F64), colgen.Tuple(colgen.LowCardinality(b.Str), colgen.Array(b.Str)),
 		b.U8, b.I128, colgen.Array(b.FS3), colgen.Map(b.Str, colgen.LowCardinality(b.Str)),
+		// the inferring enum column: its raw values are prepared state, rebuilt from the names before every block
+		b.EnT8, b.EnT16, colgen.Nullable(b.EnT8), colgen.Array(b.EnT16),
 	}
+}
+
+// historyAlt gives, for a kind whose column adopts a definition from the server, the same kind under another definition.
+func historyAlt(k colgen.Kind) colgen.Kind {
+	b := colgen.NewBases()
+	switch k.Name() {
+	case b.EnT8.Name():
+		return b.EnT8Alt
+	case b.EnT16.Name():
+		return b.EnT16Alt
+	}
+	return nil
 }
 
 const rev = 54460
 
 // history ops: 0,1,2 append value #n; 3 reset; 4 prepare; 5 encode block; 6 write block + flush; 7 decode valid data;
 // 8 failed decode (truncated data); 9 append two rows at once; 10 append bulkN distinct values; 11 decode a block of
-// bulkN distinct values
-const nHOps = 12
+// bulkN distinct values; 12 the column is inferred again with another definition of the same names (kinds that have one)
+const nHOps = 13
 
 // bulkN distinct-ish values are enough to leave one-byte LowCardinality keys
 var bulkN = 260
 
 type hrun struct {
 	tw   *tracew.W
+	alt  colgen.Kind // the other definition (op 12 swaps kind and alt)
 	kind colgen.Kind
 	col  colgen.Col
 	v    [3]any
@@ -74,6 +89,14 @@ func (h *hrun) do(op int) {
 			h.col.Append(v)
 		}
 		h.tw.Emit(map[string]any{"ev": "AppendMany", "vs": vs, "rows": col.Rows()})
+	case 12:
+		inf, ok := col.(proto.Inferable)
+		if h.alt == nil || !ok {
+			return
+		}
+		err := safely(func() error { return inf.Infer(proto.ColumnType(h.alt.Name())) })
+		h.kind, h.alt = h.alt, h.kind
+		h.tw.Emit(map[string]any{"ev": "Infer", "tname": h.kind.Name(), "ast": h.kind.AST(), "rows": col.Rows(), "err": errStr(err)})
 	case 3:
 		col.Reset()
 		h.tw.Emit(map[string]any{"ev": "Reset", "rows": col.Rows()})
@@ -210,6 +233,7 @@ func historyMain(args []string) error {
 				return
 			}
 			h.v = v
+			h.kind, h.alt = k, historyAlt(k)
 			h.col = k.New()
 			tw.Emit(map[string]any{"ev": "HBegin", "tname": k.Name(), "ast": k.AST(), "rev": rev})
 			n++
@@ -235,6 +259,23 @@ func historyMain(args []string) error {
 			}
 		}
 		rec(0)
+		if historyAlt(k) != nil {
+			// kinds with a second definition: every history over append / reset / prepare / encode / decode / re-infer
+			alpha := []int{0, 1, 3, 4, 5, 7, 12}
+			seq2 := make([]int, *depth+1)
+			var rec2 func(i int)
+			rec2 = func(i int) {
+				if i == len(seq2) {
+					runHist(v0, append(append([]int(nil), seq2...), 5))
+					return
+				}
+				for _, op := range alpha {
+					seq2[i] = op
+					rec2(i + 1)
+				}
+			}
+			rec2(0)
+		}
 		// bulk histories: enough distinct values to leave one-byte LowCardinality keys, with every combination of
 		// append / reset / encode / decode around them; the observation is a final encode
 		if *bulk {
